@@ -3,6 +3,7 @@ import Driver.ObjFmt
 import Parsley.Model.Obj
 import Parsley.Spec.Spelling
 import Parsley.Spec.SpellingWF
+import Parsley.Spec.NumLit
 namespace Driver.C02
 open Parsley Parsley.Prim Parsley.Obj Parsley.Spelling Driver
 
@@ -11,7 +12,11 @@ open Parsley Parsley.Prim Parsley.Obj Parsley.Spelling Driver
     `dup <d> <hex>`                                a dictionary repeating a non-null key: must be rejected
     `mut <d> <hex>`                                a mutated spelling: correspondence only
     `genbad <d> <hex>`                             the generator left the domain `wfDeep` of the encoder theorem
-                                                   (Props/C02Encoder.lean): always judged `bad` -/
+                                                   (Props/C02Encoder.lean): always judged `bad`
+    `lit <d> <hex> <len> <lead> <expected sexp…>`  a text around a point-free number token of any size (outside the
+                                                   encoder's domain); expected value by Spec/NumLit.lean; judged like `sp`
+    `nolit <d> <hex>`                              such a text that is not an object (token beyond the i128 range, or a
+                                                   reference whose number / generation is not an integer): must be rejected -/
 def model (line : String) : String :=
   match words line with
   | _ :: d :: hex :: _ =>
@@ -26,7 +31,7 @@ def model (line : String) : String :=
 
 def judge (case impl : String) : String :=
   match words case with
-  | "sp" :: _ :: _ :: len :: lead :: sexp =>
+  | "sp" :: _ :: _ :: len :: lead :: sexp | "lit" :: _ :: _ :: len :: lead :: sexp =>
     let want := s!"ok {lead} {len} {len} " ++ " ".intercalate sexp
     if impl.trimAscii.toString == want then "ok"
     else if impl.startsWith "ok" then s!"bad wrong-value-or-cursor want={want}"
@@ -35,6 +40,8 @@ def judge (case impl : String) : String :=
   | "dup" :: _ =>
     if impl.startsWith "err" then "ok" else if impl.startsWith "ok" then "bad duplicate-key-accepted" else "bad panic-or-crash"
   | "genbad" :: _ => "bad generator-outside-domain"
+  | "nolit" :: _ =>
+    if impl.startsWith "err" then "ok" else if impl.startsWith "ok" then "bad non-object-accepted" else "bad panic-or-crash"
   | "mut" :: _ =>
     if impl.startsWith "panic" || impl.startsWith "crash" then "bad panic-or-crash"
     else if impl.startsWith "ok" && sexpHasNullEntry impl then
@@ -154,7 +161,56 @@ def genDomainOK (seed n : Nat) : Bool :=
     let (sv, r2) := shuffleObj v r1
     (acc.1 && inDomain v sv (depth v), r2)) (true, Rng.mk' seed)).1
 
-def gen (seed n : Nat) (_tier : String) (emit : String → IO Unit) : IO Unit := do
+/-! ### number tokens of any size
+
+  A point-free number token denotes an Integer only inside the i64 range; outside it is the real
+  value/1, beyond the i128 range it is not an object (`NumLit.denote`).  The literals are chosen
+  around the boundaries of the integer types and so that a narrowing implementation (modulo 2^64,
+  2^32, 2^128) would read a small number: k * 2^64 + t, -(k * 2^64 - t). -/
+
+/-- (negative?, magnitude) -/
+def wideLits : List (Bool × Nat) :=
+  (([1, 2, 3, 2 ^ 31, 2 ^ 62, 2 ^ 63 - 1] : List Nat).flatMap fun k =>
+    ([0, 1, -1, 5, 42, -17] : List Int).flatMap fun t => [false, true].map fun neg => NumLit.wideLit neg k t) ++
+  (([2 ^ 31, 2 ^ 32 + 5, 2 ^ 63 - 1, 2 ^ 63, 2 ^ 63 + 1, 2 ^ 63 + 5, 2 ^ 64 - 1, 2 ^ 64, 10 ^ 19, 10 ^ 30, 2 ^ 126 + 5, 2 ^ 127 - 1,
+     2 ^ 127, 2 ^ 127 + 5, 2 ^ 128 + 5, 2 ^ 128 - 5, 10 ^ 39] : List Nat).flatMap fun m => [(false, m), (true, m)])
+
+def numLits (emit : String → IO Unit) (full : Bool) : IO Unit := do
+  let mut k := 0
+  for (neg, mag) in wideLits do
+    k := k + 1
+    let sign : Bytes := if neg then [45] else if k % 3 == 1 then [43] else []
+    let tok := sign ++ zeros (k % 4 / 2 * (k % 5 / 2)) ++ natDigits mag
+    let lead : Bytes := [[], [32], bs "%c\n ", [13, 10]][k % 4]?.getD []
+    let v := NumLit.denote neg mag
+    let wide := !NumLit.isInt neg mag
+    -- `text` is what must be consumed (the value's spelling), `ctx` what follows it
+    let caseOf (text ctx : Bytes) (e : Option Obj) : String :=
+      match e with
+      | some e => s!"lit 5 {hexOfBytes (lead ++ text ++ ctx)} {lead.length + text.length} {lead.length} {objSexp e}"
+      | none => s!"nolit 5 {hexOfBytes (lead ++ text ++ ctx)}"
+    -- bare, before the following contexts of the generator (` 2 R` after an Integer would make a reference:
+    -- ` 2 RG` there; after a token that is not an Integer it stays: the token is a value of its own)
+    let ctxs := if full then contexts else (List.range 4).map fun i => contexts[(k + 4 * i) % contexts.length]?.getD []
+    for ctx in ctxs ++ [bs " 2 R", bs " 0 R"] do
+      let ctx := genContextFor (!wide) (if !wide && ctx == bs " 0 R" then bs " 0 RG" else ctx)
+      emit (caseOf tok ctx v)
+    -- array element and dictionary value
+    let after := contexts[k % contexts.length]?.getD []
+    emit (caseOf (bs "[1 " ++ tok ++ bs "/X]") after (v.map fun v => .arr [.int 1, v, .name (bs "X")]))
+    emit (caseOf (bs "[" ++ tok ++ bs "]") after (v.map fun v => .arr [v]))
+    emit (caseOf (bs "<</A " ++ tok ++ bs "/B 1>>") after (v.map fun v => .dict [(bs "A", v), (bs "B", .int 1)]))
+    emit (caseOf (bs "<</A[" ++ tok ++ bs " ]>>") after (v.map fun v => .dict [(bs "A", .arr [v])]))
+    if wide then
+      -- object number of a reference: `<tok> 0 R` is not a reference; inside an array `R` is then not an object
+      emit (caseOf (bs "[" ++ tok ++ bs " 0 R]") [] none)
+      emit (caseOf (bs "<</A " ++ tok ++ bs " 0 R>>") [] none)
+      -- generation: `5 <tok> R` is the Integer 5 followed by something else
+      emit (caseOf (bs "5") (bs " " ++ tok ++ bs " R") (some (.int 5)))
+      emit (caseOf (bs "[5 " ++ tok ++ bs " R]") [] none)
+
+def gen (seed n : Nat) (tier : String) (emit : String → IO Unit) : IO Unit := do
+  numLits emit (tier == "thorough")
   let mut r := Rng.mk' seed
   for _ in List.range n do
     let (v, r1) := rndObj 4 r
@@ -194,6 +250,8 @@ def gen (seed n : Nat) (_tier : String) (emit : String → IO Unit) : IO Unit :=
 def nontrivial (line : String) : Bool :=
   match words line with
   | "sp" :: _ :: hex :: _ => hex.length ≥ 8
+  | "lit" :: _ :: hex :: _ => hex.length ≥ 8
+  | "nolit" :: _ => true
   | "dup" :: _ => true
   | "mut" :: _ :: hex :: _ => hex.length ≥ 8
   | _ => false
